@@ -451,3 +451,58 @@ def RI(inp, n):
                                                          Eq(q.commit, p.commit), len(acks) == 0, Eq(o.x, -1))
     cl['follows_the_sender'] = And(q.role == F, q.leader == Node('b'), Eq(q.term, mterm))
     return Res(cl, nontrivial=started, obs=lambda: dict(started=started, log=show(q.log), applied=show(q.applied), commit=show(q.commit), x=show(o.x), exc=show(exc)))
+
+
+@obligation('S7', props=('C09', 'C06'), quick=[dict()], stubs=_STUBS + ('open() / rename of the dump write fail as told (case split)',),
+            bounds='inline dump mode (no fork); the tmp file cannot be created, the write fails, or the rename fails; log of 4 entries')
+def S7(inp):
+    """failed dump: when writing the snapshot file fails at any stage, compaction reports failure, the log is not trimmed, the old
+    dump file is untouched and a later compaction can run again."""
+    install_memory()
+    _Pickle.disk_tokens = True
+    fs = disk.FS(False)
+    disk.CUR = fs
+    fs.base = {}
+    old = Blob.fresh(('old-image',), 10)
+    fs.files['dumpfile'] = old
+    stage = ('open', 'write', 'rename', 'none')[inp.choice('fails_at', 4)]
+
+    class FailingFile(disk.FakeFile):
+        def __init__(self, name, mode='r'):
+            if stage == 'open' and 'w' in mode:
+                raise IOError(13, 'Permission denied', name)
+            disk.FakeFile.__init__(self, name, mode)
+
+        def write(self, data):
+            if stage == 'write':
+                raise IOError(28, 'No space left on device')
+            disk.FakeFile.write(self, data)
+
+    def rename(a_, b_):
+        if stage == 'rename':
+            raise OSError(1, 'Operation not permitted')
+        disk._rename(a_, b_)
+    ser_mod.open = FailingFile
+    ser_mod.atomicReplace = rename
+    try:
+        now = inp.real('now', 0)
+        o, tr = so.make('a', ['b'], so.Clock(now), inp, fullDumpFile='dumpfile', useFork=False)
+        so.set_log(o, [(so.NOOP, i, 0) for i in (1, 2, 3, 4)])
+        put(o, 'raftCommitIndex', 4); put(o, 'raftLastApplied', 4)
+        o.forceLogCompaction()
+        _, exc = guard(getattr(o, so.P + 'tryLogCompaction'))
+        _, exc2 = guard(getattr(o, so.P + 'tryLogCompaction'))
+        log = so.log_of(o)
+        dump = fs.files.get('dumpfile')
+    finally:
+        _Pickle.disk_tokens = False
+        if 'open' in ser_mod.__dict__:
+            del ser_mod.__dict__['open']
+        ser_mod.atomicReplace = _REAL['atomicReplace']
+    failed = stage != 'none'
+    cl = {'no_exception': exc is None and exc2 is None}
+    cl['trimmed_iff_dump_written'] = (len(log) == 4) == failed and (failed or (len(log) == 2 and log[0][1] == 3))
+    cl['old_dump_untouched_on_failure'] = (not failed) or (dump is not None and bool(Blob.coerce(dump).same(old)))
+    cl['new_dump_in_place_on_success'] = failed or (isinstance(dump, Blob) and dump.sole_origin() is not None and dump.sole_origin()[0][0] == 'token')
+    cl['serializer_idle_again'] = get(o, 'serializer')._Serializer__pid == 0
+    return Res(cl, nontrivial=failed, obs=lambda: dict(stage=stage, log=[e[1] for e in log], dump=repr(dump)[:80], exc=show(exc)))
